@@ -41,13 +41,20 @@ class UserBase(BaseException):
     pass
 
 
+class Awaitable:
+    """a legitimate return VALUE that happens to be awaitable"""
+
+    def __await__(self):
+        return iter(())
+
+
 def make_outcome(how):
     """-> ("return", value) or ("raise", exception instance)"""
     kind, _, what = how.partition(":")
     if kind == "none":
         return ("return", None)
     if kind == "val":
-        return ("return", {"0": 0, "0.0": 0.0, "False": False, "''": "", "[]": [], "()": (), "x": "x", "obj": object(), "1": 1}[what])
+        return ("return", {"0": 0, "0.0": 0.0, "False": False, "''": "", "[]": [], "()": (), "x": "x", "obj": object(), "1": 1, "awaitable": Awaitable()}[what])
     if kind in ("exc", "base"):
         cls = {"LookupError": LookupError, "UserExc": UserExc, "UserExcSub": UserExcSub, "ValueError": ValueError, "RuntimeError": RuntimeError,
                "UserBase": UserBase, "SystemExit": SystemExit, "KeyboardInterrupt": KeyboardInterrupt, "GeneratorExit": GeneratorExit}[what]
@@ -122,7 +129,13 @@ class Harness:
                 time.sleep(cmd.get("hold", 0.0))
                 hooks.emit("p.seg.exit", p=pid, flavour=flavour)
             elif op == "adopt":
-                h.do_adopt(cmd["target"], "payload:" + pid)
+                if cmd.get("own_loop") and flavour == "threading":
+                    async def private():
+                        h.do_adopt(cmd["target"], "ownloop:" + pid)
+                        await asyncio.sleep(0.01)
+                    asyncio.run(private())
+                else:
+                    h.do_adopt(cmd["target"], "payload:" + pid)
             elif op == "execute":
                 h.do_execute(cmd["target"], "payload:" + pid, cmd["how"])
             elif op == "new_service":
@@ -265,7 +278,7 @@ class Harness:
             return
         hooks.emit("adopt.ret", p=pid, ctx=ctx, ok=(r is None), exc="")
 
-    def do_execute(self, pid, ctx, how):
+    def do_execute(self, pid, ctx, how, slow=0.0):
         """execute() a payload that records its start and ends at once in the given way"""
         spec = self.spec_of(pid)
         flavour = spec["flavour"]
@@ -277,22 +290,28 @@ class Harness:
         h = self
 
         def body(args, kwargs):
-            hooks.emit("x.start", p=pid, call=call, flavour=flavour, argsok=(tuple(args) == exp_args and dict(kwargs) == exp_kwargs), **h.ctx_info(flavour))
             hooks.emit("x.end", p=pid, call=call, how=how)
             if kind == "raise":
                 raise val
             return val
 
+        def begin(args, kwargs):
+            hooks.emit("x.start", p=pid, call=call, flavour=flavour, argsok=(tuple(args) == exp_args and dict(kwargs) == exp_kwargs), **h.ctx_info(flavour))
+
         if flavour == "threading":
             def payload(*args, **kwargs):
+                begin(args, kwargs)
+                time.sleep(slow)
                 return body(args, kwargs)
         elif flavour == "asyncio":
             async def payload(*args, **kwargs):
-                await asyncio.sleep(0)
+                begin(args, kwargs)
+                await asyncio.sleep(slow)
                 return body(args, kwargs)
         else:
             async def payload(*args, **kwargs):
-                await trio.sleep(0)
+                begin(args, kwargs)
+                await trio.sleep(slow)
                 return body(args, kwargs)
         hooks.emit("exec.call", p=pid, call=call, ctx=ctx, flavour=flavour)
         try:
@@ -391,7 +410,9 @@ class Harness:
 
     def run_ctx(self, ctx, fn_direct, payload_cmd):
         """perform an API call in the given context"""
-        if ctx.startswith("payload:"):
+        if ctx.startswith("ownloop:"):
+            self.command(ctx.split(":", 1)[1], dict(payload_cmd, own_loop=True))
+        elif ctx.startswith("payload:"):
             self.command(ctx.split(":", 1)[1], payload_cmd)
         elif ctx == "thread":
             t = self.helper(fn_direct, "caller")
@@ -426,7 +447,11 @@ class Harness:
             elif o == "block":
                 self.command(op["p"], {"op": "block"})
             elif o == "execute":
-                self.run_ctx(op.get("ctx", "driver"), lambda: self.do_execute(op["p"], op.get("ctx", "driver"), op["how"]), {"op": "execute", "target": op["p"], "how": op["how"]})
+                if op.get("wait", True) is False:
+                    self.helper(lambda: self.do_execute(op["p"], "thread", op["how"], op.get("slow", 0.0)), "bg-executor")
+                    time.sleep(0.05)
+                else:
+                    self.run_ctx(op.get("ctx", "driver"), lambda: self.do_execute(op["p"], op.get("ctx", "driver"), op["how"], op.get("slow", 0.0)), {"op": "execute", "target": op["p"], "how": op["how"]})
             elif o == "new_service":
                 self.run_ctx(op.get("ctx", "driver"), lambda: self.do_new_service(op["s"], op.get("ctx", "driver")), {"op": "new_service", "s": op["s"]})
             elif o == "drop_service":
